@@ -125,6 +125,10 @@ Holds(e, name) ==
     [] name = "C03_RobinApply"    -> C03_Robin(g, bc, FieldOf(g, o.f_apply))
     [] name = "C03_RobinSolve"    -> C03_Robin(g, bc, FieldOf(g, o.f_solve))
     [] name = "C03_RobinExplicit" -> C03_Robin(g, bc, FieldOf(g, o.f_explicit))
+    [] name = "C03_CtorForms" ->      \* integer-typed / Fortran-ordered / strided interior arrays: same ghost values
+         \A k \in DOMAIN o.f_ctor_forms :
+            /\ C03_Robin(g, bc, FieldOf(g, o.f_ctor_forms[k])) /\ C03_Periodic(g, bc, FieldOf(g, o.f_ctor_forms[k]))
+            /\ C03_InteriorKept(g, FieldOf(g, cf.phi), FieldOf(g, o.f_ctor_forms[k]))
     [] name = "C03_PeriodicCtor"     -> C03_Periodic(g, bc, FieldOf(g, o.f_ctor))
     [] name = "C03_PeriodicApply"    -> C03_Periodic(g, bc, FieldOf(g, o.f_apply))
     [] name = "C03_PeriodicSolve"    -> C03_Periodic(g, bc, FieldOf(g, o.f_solve))
